@@ -478,12 +478,17 @@ impl<R: Round> Context<R> {
     // Convert the [Repr] from base B to base NewB, with the precision under the target base from this context.
     #[allow(non_upper_case_globals)]
     fn convert_base<const B: Word, const NewB: Word>(&self, repr: Repr<B>) -> Rounded<Repr<NewB>> {
-        // shortcut if NewB is the same as B
+        // shortcut if NewB is the same as B (only the rounding to the target precision is left)
         if NewB == B {
-            return Exact(Repr {
+            let repr = Repr {
                 significand: repr.significand,
                 exponent: repr.exponent,
-            });
+            };
+            return if repr.is_infinite() {
+                Exact(repr)
+            } else {
+                self.repr_round(repr)
+            };
         }
 
         // shortcut for infinities, no rounding happens but the result is inexact
@@ -511,7 +516,7 @@ impl<R: Round> Context<R> {
             let n = ilog_exact(B, NewB);
             if n > 1 {
                 let exp = repr.exponent * n as isize;
-                return Exact(Repr::new(repr.significand, exp));
+                return self.repr_round(Repr::new(repr.significand, exp));
             }
         }
 
@@ -531,7 +536,7 @@ impl<R: Round> Context<R> {
             // if the exponent is small enough, directly evaluate the exponent
             if repr.exponent >= 0 {
                 let signif = repr.significand * Repr::<B>::BASE.pow(repr.exponent as usize);
-                Exact(Repr::new(signif, 0))
+                self.repr_round(Repr::new(signif, 0))
             } else {
                 let num = Repr::new(repr.significand, 0);
                 let den = Repr::new(Repr::<B>::BASE.pow(-repr.exponent as usize).into(), 0);
